@@ -621,3 +621,37 @@ package fzf
 //@ ensures fresh(result) ==> result.fuzzy == fuzzy && result.fuzzyAlgo == fuzzyAlgo && result.extended == extended && result.forward == forward && result.withPos == withPos && result.denylist == denylist && result.nth == nth
 //@ ensures fresh(result) ==> result.procFun != nil && mapget(result.procFun, termFuzzy) == fuzzyAlgo && mapget(result.procFun, termEqual) == algo.EqualMatch && mapget(result.procFun, termExact) == algo.ExactMatchNaive && mapget(result.procFun, termExactBoundary) == algo.ExactMatchBoundary && mapget(result.procFun, termPrefix) == algo.PrefixMatch && mapget(result.procFun, termSuffix) == algo.SuffixMatch
 //@ ensures fresh(result) && !extended ==> result.normalize ==> normalize
+
+// ---------------------------------------------------------------- option parsing (C17)
+// --tmux=[center|top|bottom|left|right][,SIZE[%]][,SIZE[%]][,border-native]: any argument text either gives
+// options or an error, never a crash, and never both nil.
+//@ func defaultTmuxOptions
+//@ ensures result != nil && fresh(result)
+//@ func parseSize trusted
+//@ func parseTmuxOptions
+//@ property C17
+//@ ensures (r0 == nil) == (r1 != nil)
+//@ loop 1
+//@   invariant opts != nil && fresh(opts) && errorToReturn != nil && 1 <= len(tokens) && len(tokens) <= 4 && (tokens == nil || fresh(tokens))
+
+// Option-value parsers that are proved panic-free for any argument text with no further contract
+// (library string functions are modelled as pure: see the evidence's trusted list).
+//@ func parseTiebreak
+//@ property C17
+//@ loop 1
+//@   invariant fresh(criteria) && len(criteria) >= 1
+//@ func parseScheme
+//@ property C17
+//@ func parseWalkerOpts
+//@ property C17
+//@ func parseInfoStyle
+//@ property C17
+//@ func parseHeight
+//@ property C17
+//@ func filterNonEmpty
+//@ property C17
+//@ ensures fresh(result) && len(result) <= len(input)
+//@ loop 1
+//@   invariant fresh(output) && len(output) <= iter && cap(output) >= len(input)
+//@ func sizeSpec.String
+//@ property C17
